@@ -449,6 +449,13 @@ __wrap_close(int fd)
 	struct fault *f;
 	long k = begin_step("close", &f);
 	const char *path = (fd >= 0 && fd < MAXFD && fdpath[fd]) ? fdpath[fd] : "?";
+	if (f && f->err && f->shortn > 0) {
+		/* write-behind storage (NFS, quota): earlier write(2) calls were accepted, the error only
+		 * surfaces at close and the tail of the data never reached the file */
+		struct stat st;
+		if (fstat(fd, &st) == 0 && st.st_size > 8)
+			if (ftruncate(fd, 8 + (st.st_size - 8) / 2) != 0) { /* best effort */ }
+	}
 	int ret = __real_close(fd);
 	int e = ret ? errno : 0;
 	if (f && f->err) {
